@@ -81,7 +81,8 @@ class SimplePatternMatcher(PatternMatcher):
         node if it is not used elsewhere.
         """
         constant_value = value.const_value
-        if constant_value is None:
+        if constant_value is None or value.is_graph_input():
+            # (an initializer that is also a graph input is only a default the caller may override)
             return self.fail(
                 f"Value {value.name} is not a constant, expecting {pattern_constant.value}.",
             )
